@@ -324,6 +324,18 @@ def value_within(ctx: Ctx, f: FuncInfo, node: ast.AST, val: ast.expr, lo, hi):
                 return True, f"dominated by the range check `{norm(t.ast)}`"
         # upper bound from a dominating `v > K -> raise` test (C11 RANGE-1), lower bound from the expression shape
         la = ctx.I.local_assigns(f).get(val.id) or []
+        rebinds: list = []
+        if len(la) > 1 and all(isinstance(v_, ast.expr) for v_ in la):
+            # several bindings (a candidate and its fallback): each must be bounded on its own
+            from .c11 import range_pick
+
+            extras = sorted(la, key=lambda v_: v_.lineno)[1:]
+            picks = [range_pick(ctx, f, v_) for v_ in extras]
+            if picks and all(p_ is not None and (lo is None or p_[0] >= lo) and (hi is None or p_[1] - 1 <= hi) for p_ in picks):
+                la = [sorted(la, key=lambda v_: v_.lineno)[0]]
+                for v_ in extras:
+                    st_ = ctx.prog.parents.get(v_)
+                    rebinds += g.nodes_of(st_) if st_ is not None else []
         if len(la) == 1 and isinstance(la[0], ast.expr):
             # the first element of a constant range
             from .c11 import search_shape
@@ -343,7 +355,8 @@ def value_within(ctx: Ctx, f: FuncInfo, node: ast.AST, val: ast.expr, lo, hi):
                         continue
                     # the store must be on the false branch (test true -> raise)
                     true_starts = [s2 for s2, lab in t.succ if lab == "t"]
-                    if g.reach_avoiding(true_starts, lambda x: x in snodes, lambda x, t=t: x is t, from_succ=False) is not None:
+                    # (a path on which the value is re-bound to a bounded fallback first does not count)
+                    if g.reach_avoiding(true_starts, lambda x: x in snodes, lambda x, t=t: x is t or x in rebinds, from_succ=False) is not None:
                         continue
                     upper = iv[0] - 1
                     if low is not None and (lo is None or low >= lo) and (hi is None or upper <= hi):
@@ -469,13 +482,16 @@ def legacy1(ctx: Ctx, chk) -> None:
                 for dd in (got, exp):
                     if dd.get(k) == ("in", k, False):
                         dd[k] = ("const", "")
-            if got != exp and bad is None:
-                bad = (inp, got, exp)
+            if got != exp:
+                # keep the most telling counterexample: fewest nulls, then fewest keys
+                score = (sum(1 for v_ in inp.values() if v_ == dx.NONE), len(inp))
+                if bad is None or score < bad[3]:
+                    bad = (inp, got, exp, score)
         chk.instance(rule)
         key = f"{f.fq}::translation"
         if bad is None:
             chk.ok(rule, key, f"{n} abstract inputs translated as specified", f.where)
         else:
-            inp, got, exp = bad
+            inp, got, exp, _score = bad
             chk.refute(rule, key, f"{s.name}.{f.name} translates {dx.show(inp)} into {dx.show(got)}; the legacy layout requires {dx.show(exp)}", f.where)
         chk.notes.setdefault("legacy_inputs", {})[s.name] = n
